@@ -425,3 +425,30 @@ Print Assumptions c11_refusal_nonvacuous.
 Print Assumptions c11_refusal_bare_nonvacuous.
 Print Assumptions c11_late_nonvacuous.
 Print Assumptions c11_assert_reachable_outside_discipline.
+
+(* ================================================================== the handshake's code itself (translated from the source) *)
+(** [Flow<Await100>::try_read_100] is translated on every run by tools/rs2coq2.py (theories/Gen2.v, [gen_try_read_100]) with the
+    fields of [self.inner] it touches (close reasons, should_send_body, await_100_continue) as parameters and the result of the
+    zero-slot parse as a value (consumed count and status).  proofs/Gen2_equiv_flow.v proves it equal to the model's [try_read_100]
+    on every flow and every input: same count, same three fields afterwards, same error; it panics only where the model does (the
+    [assert!(should_send_body)]).  So the theorems above about the decision point, the refusal and the cleared flag are statements
+    about the code as it is now; hoisting the clearing of the flag, widening the go-ahead test or dropping the close reason changes
+    Gen2.v and this equality no longer holds.  Trusted: the translator. *)
+From Hoot Require Import GenLib Gen2.
+From Hoot.proofs Require Import Gen2_equiv_flow.
+Theorem c11_code_try_read_100 : forall f input,
+  let g := gen_try_read_100 (i_reasons f) (i_should_send_body f) (i_await_100 f) (parsed_of (try_parse_response 0 input)) in
+  match try_read_100 f input with
+  | (f', Ok n) => g = Ok (i_reasons f', i_should_send_body f', i_await_100 f', n)
+  | (_, Err e) => g = Err e
+  | (_, Panic _) => exists s, g = Panic s
+  end.
+Proof. exact gen_try_read_100_ok. Qed.
+Example c11_code_nonvacuous :
+  gen_try_read_100 [] true true (Ok (Some (25, 100))) = Ok ([], true, false, 25)
+  /\ gen_try_read_100 [] true true (Ok (Some (19, 403))) = Ok ([Not100Continue], false, false, 0)
+  /\ gen_try_read_100 [] true true (Err HttpParseTooManyHeaders) = Ok ([Not100Continue], false, false, 0)
+  /\ gen_try_read_100 [] true true (Ok None) = Ok ([], true, true, 0).
+Proof. vm_compute. repeat split; reflexivity. Qed.
+Print Assumptions c11_code_try_read_100.
+Print Assumptions c11_code_nonvacuous.
